@@ -40,6 +40,7 @@ import uuid
 from .. import _extract_inspect as cat
 from .. import core, iso, lean
 from ..runner import Result
+from .hints_corr import hints_correspondence, hints_replay
 
 ID = "C17"
 LEVEL = "proof"
@@ -66,7 +67,15 @@ LEVEL_TEXT = ("Kernel-checked theorems (Props/C17.lean) over an executable model
               "NOT covered by a theorem, checked by the runtime oracle only: the signature helpers (signature, get_type_hints, "
               "typed_dict_signature, tuple_signature, safe_get_params, simple_attributes), name / qualname / args on composite "
               "annotations, isstdlibtype / isstructuredtype / isgeneric, and the instance predicates (ishashable, isproperty, "
-              "isdescriptor, isbuiltininstance, isstdlibinstance, issimpleattribute).")
+              "isdescriptor, isbuiltininstance, isstdlibinstance, issimpleattribute). "
+              "How the MEMBER HINTS of a class or callable are obtained — get_type_hints(obj, exhaustive), _hints_from_signature, "
+              "signature with typed_dict_signature / tuple_signature / the named-tuple exception, cached_type_hints / cached_signature, "
+              "and which annotation the binder takes per parameter — has its own model (Model/Hints.lean: the class as its MRO of "
+              "(module, own namespace, own annotations, own constructor), the interpreter's module namespaces, CPython's "
+              "typing.get_type_hints walk) and theorems (Props/Hints.lean: hints_mro_modules, non_exhaustive_never_signature, "
+              "hints_stateless, namedtuple_keeps_signature, callable_params_by_own_annotation, kw_only_dropped, "
+              "typeddict_signature_spec, tuple_signature_spec, each with a `_needed` counter-model taken from a seeded regression), "
+              "tied to /repo by harness/props/hints_corr.py on every run.")
 LEVEL_NOTE = ("Trusted: Lean kernel; axioms propext, Classical.choice, Quot.sound; the hand-written model Model/Inspect.lean (tied by "
               "the per-run correspondence, not verified); harness/_extract_inspect.py (the table IS the runtime's answer for the "
               "catalogue; objects outside the catalogue are covered only through the adequacy hypothesis); the harness oracle; names of "
@@ -75,14 +84,19 @@ TECHNIQUE = ("Lean 4 proof over an executable model parameterised by a table of 
              "decidable table adequacy re-decided on the regenerated lattice; differential correspondence through the native driver; "
              "independent runtime oracle (issubclass / typing / inspect / dataclasses) in forked children")
 DESIGN_REF = "DESIGN.md §5 C17"
-MODULES = ["TypelibModel.Props.C17"]
+MODULES = ["TypelibModel.Props.C17", "TypelibModel.Props.Hints"]
 TABLES = False          # this module regenerates its own table (Gen/Lattice.lean) at import time, before the runner builds
 RULE = ("catalogue-driven enumeration + sampling: every base object of the catalogue (builtins, stdlib types the library names, every "
         "collections.abc ABC and typing alias, synthesised user classes of each flavour) x every subscriptable generic in both spellings "
         "x NewType / TypeAliasType chains of length <= 3 (all 14 shapes on a rotating subset of cores, length <= 2 on all) x Final / ClassVar "
         "x unions in typing / Optional / pipe spelling over sampled member sets (both orders, separate children) x Literal, TypeVars "
         "(free, bound, constrained), Callable, ForwardRef; every predicate on every annotation, twice; a case = (annotation, predicate); "
-        "non-trivial when the annotation is not a bare builtin; distinct = distinct (annotation, predicate)")
+        "non-trivial when the annotation is not a bare builtin; distinct = distinct (annotation, predicate). "
+        "Member hints (hints_corr.py): a fixed grid of synthesised classes (plain / dataclass / TypedDict / NamedTuple / "
+        "collections.namedtuple / tuple subclass / annotated on __init__ only / unresolvable annotations) x alone | subclass in the same | "
+        "in the OTHER of two modules binding the same names differently x postponed | evaluated annotations x subclass overriding "
+        "__init__, plus functions, methods, callable instances and tuple aliases; every group twice, visited base first and subclass "
+        "first in one process and revisited; a case = (object, question)")
 ASSUMPTIONS = [
     "the catalogue is the universe: the theorems hold for any table passing `adequate`; for objects outside the catalogue the table "
     "facts are a hypothesis",
@@ -96,6 +110,7 @@ ASSUMPTIONS = [
 ]
 TRUSTED = ["harness/props/c17.py (generators, materialiser, oracle)", "harness/_extract_inspect.py (catalogue + table extraction)",
            "lean/TypelibModel/Drv/Inspect.lean (driver glue)",
+           "harness/props/hints_corr.py (class synthesis, description extraction), lean/TypelibModel/Drv/Hints.lean, Model/Hints.lean",
            "hand-written model Model/Inspect.lean tied to inspection.py by this correspondence"]
 
 SRC = os.environ.get("TYPELIB_SRC", "/repo/src")
@@ -1139,6 +1154,7 @@ def explore(ctx):
     evaluate(ctx, res, env, bulk, fams)
     evaluate_helpers(res)
     twins_pass(ctx, res)
+    hints_correspondence(res)   # member hints of classes and callables: real code <-> Model/Hints.lean
     return res
 
 
@@ -1188,6 +1204,8 @@ def witness(fid):
 
 def replay(failure):
     inp = failure["input"]
+    if inp.get("family") == "hints-corr":
+        return hints_replay(failure)
     if "twins" in inp:
         core.import_typelib()
         a, b = inp["twins"]
